@@ -73,11 +73,32 @@ def _ranges(bad):
     return complement_ranges(bad)
 
 
+def _concat_pieces(t):
+    import z3
+    if z3.is_app(t) and t.decl().kind() == z3.Z3_OP_SEQ_CONCAT:
+        out = []
+        for c in t.children():
+            out.extend(_concat_pieces(c))
+        return out
+    return [t]
+
+
 def within(s, bad):
-    """no character of s is in the list of code points `bad`"""
+    """no character of s is in the list of code points `bad`.  For a symbolic text the membership is stated piecewise over
+    the concatenation (L = C* for a character class C, so  a ++ b in L  <=>  a in L and b in L): literal fragments are
+    decided here, every other fragment gets its own membership atom — the sanitisation obligation per fragment."""
     if isinstance(s, SStr):
+        import z3
+        from pyvc.core import simp, str_value_to_pystr
         from pyvc.libx_ui import all_in
-        return SBool(all_in(s.t, _ranges(bad)))
+        atoms = []
+        for p in _concat_pieces(simp(s.t)):
+            if z3.is_string_value(p):
+                if any(ord(c) in bad for c in str_value_to_pystr(p)):
+                    return SBool(z3.BoolVal(False))
+            else:
+                atoms.append(all_in(p, _ranges(bad)))
+        return SBool(z3.And(*atoms) if len(atoms) > 1 else (atoms[0] if atoms else z3.BoolVal(True)))
     return not any(ord(c) in bad for c in s)
 
 
@@ -372,7 +393,7 @@ def s_fmt_client(vc):
         vc.ensure("result.clean", clean(o.result))
 
 
-@scenario("_echo_request_line", functions=[D + "._echo_request_line", D + "._fmt_client"], z3_timeout_ms=1500)
+@scenario("_echo_request_line", functions=[D + "._echo_request_line", D + "._fmt_client"], z3_timeout_ms=1500, slice_pc=True, feas_timeout_ms=300)
 def s_request_line(vc):
     replay = vc.case("is_replay", [None, "request"])
     pushed = vc.case("pushed", [False, True])
@@ -394,7 +415,7 @@ def s_request_line(vc):
     all_clean(vc, echoed)
 
 
-@scenario("_echo_response_line", functions=[D + "._echo_response_line"], z3_timeout_ms=1500)
+@scenario("_echo_response_line", functions=[D + "._echo_response_line"], z3_timeout_ms=1500, slice_pc=True, feas_timeout_ms=300)
 def s_response_line(vc):
     replay = vc.case("is_replay", [None, "response"])
     detail = vc.case("flow_detail", [1, 2])
@@ -423,7 +444,7 @@ def install_content(vc):
     return text
 
 
-@scenario("_echo_message", functions=[D + "._echo_message", SU + "cut_after_n_lines"], max_unroll=3, z3_timeout_ms=1500)
+@scenario("_echo_message", functions=[D + "._echo_message", SU + "cut_after_n_lines"], max_unroll=3, z3_timeout_ms=1500, slice_pc=True, feas_timeout_ms=300)
 def s_message(vc):
     detail = vc.case("flow_detail", [3, 4, 1])
     echoed = install_env(vc)
@@ -440,7 +461,7 @@ def s_message(vc):
 
 
 @scenario("echo_flow", functions=[D + ".echo_flow", D + "._echo_request_line", D + "._echo_response_line", D + "._echo_headers",
-                                  D + "._echo_trailers", D + "._echo_message", D + "._fmt_client"], max_unroll=3, z3_timeout_ms=1500)
+                                  D + "._echo_trailers", D + "._echo_message", D + "._fmt_client"], max_unroll=3, z3_timeout_ms=1500, slice_pc=True, feas_timeout_ms=300)
 def s_echo_flow(vc):
     shape = vc.case("shape", ["request+response", "request+error", "request+response+error"])
     detail = vc.case("flow_detail", [1, 2, 3])
@@ -476,7 +497,7 @@ def mk_ws_flow(vc, close_code=None):
     return f, ws, msg
 
 
-@scenario("websocket_message", functions=[D + ".websocket_message", D + ".match"], z3_timeout_ms=1500)
+@scenario("websocket_message", functions=[D + ".websocket_message", D + ".match"], z3_timeout_ms=1500, slice_pc=True, feas_timeout_ms=300)
 def s_ws_message(vc):
     detail = vc.case("flow_detail", [1, 0])
     echoed = install_env(vc)
@@ -492,7 +513,7 @@ def s_ws_message(vc):
         vc.ensure_kf(f"echo[{i}].clean", clean(t), "KF-C49-2", Not(clean(f.request.path)))
 
 
-@scenario("websocket_end/format_websocket_error", functions=[D + ".websocket_end", D + ".format_websocket_error", D + ".match"], z3_timeout_ms=1500)
+@scenario("websocket_end/format_websocket_error", functions=[D + ".websocket_end", D + ".format_websocket_error", D + ".match"], z3_timeout_ms=1500, slice_pc=True, feas_timeout_ms=300)
 def s_ws_end(vc):
     echoed = install_env(vc)
     set_ctx_options(vc, flow_detail=1)
@@ -523,7 +544,7 @@ def mk_proto_flow(vc, kind, quic):
                   server_conn=vc.new(O, address=vc.opt("server_address", sock_addr(vc, "server"))))
 
 
-@scenario("_proto_message", functions=[D + "._proto_message", D + ".tcp_message", D + ".udp_message", D + ".match"], z3_timeout_ms=1500)
+@scenario("_proto_message", functions=[D + "._proto_message", D + ".tcp_message", D + ".udp_message", D + ".match"], z3_timeout_ms=1500, slice_pc=True, feas_timeout_ms=300)
 def s_proto_message(vc):
     kind = vc.case("type", ["tcp", "udp"])
     quic = vc.case("quic", [False, True, "no-metadata"])
@@ -541,7 +562,7 @@ def s_proto_message(vc):
     all_clean(vc, echoed)
 
 
-@scenario("_proto_error", functions=[D + "._proto_error", D + ".tcp_error", D + ".udp_error", D + ".match"], z3_timeout_ms=1500)
+@scenario("_proto_error", functions=[D + "._proto_error", D + ".tcp_error", D + ".udp_error", D + ".match"], z3_timeout_ms=1500, slice_pc=True, feas_timeout_ms=300)
 def s_proto_error(vc):
     kind = vc.case("type", ["tcp", "udp"])
     echoed = install_env(vc)
@@ -572,7 +593,7 @@ def mk_dns_flow(vc, n_answers):
     return f, q, answers
 
 
-@scenario("dns_response/_echo_dns_query", functions=[D + ".dns_response", D + "._echo_dns_query", D + "._fmt_client", D + ".match"], z3_timeout_ms=1500)
+@scenario("dns_response/_echo_dns_query", functions=[D + ".dns_response", D + "._echo_dns_query", D + "._fmt_client", D + ".match"], z3_timeout_ms=1500, slice_pc=True, feas_timeout_ms=300)
 def s_dns_response(vc):
     n = vc.case("answers", [0, 1, 2])
     echoed = install_env(vc)
@@ -590,7 +611,7 @@ def s_dns_response(vc):
     vc.ensure_kf("answer_line.clean", clean(echoed[1]), "KF-C49-5", Not(conj(clean(a.text) for a in answers)))
 
 
-@scenario("dns_error", functions=[D + ".dns_error", D + "._echo_dns_query", D + "._fmt_client", D + ".match"], z3_timeout_ms=1500)
+@scenario("dns_error", functions=[D + ".dns_error", D + "._echo_dns_query", D + "._fmt_client", D + ".match"], z3_timeout_ms=1500, slice_pc=True, feas_timeout_ms=300)
 def s_dns_error(vc):
     echoed = install_env(vc)
     set_ctx_options(vc, flow_detail=1)
